@@ -644,6 +644,9 @@ DOMNode* DOMElementImpl::rename(const XMLCh* namespaceURI, const XMLCh* name)
         fName = doc->getPooledString(name);
         fAttributes->reconcileDefaultAttributes(getDefaultAttributes());
 
+        // live getElementsByTagName lists must notice the new name
+        fParent.changed();
+
         // and fire user data NODE_RENAMED event
         castToNodeImpl(this)->callUserDataHandlers(DOMUserDataHandler::NODE_RENAMED, this, this);
 
